@@ -9,6 +9,7 @@ import (
 	"crypto/sha256"
 	"encoding/json"
 	"fmt"
+	"io"
 	"math/rand"
 	"net"
 	"os"
@@ -26,6 +27,7 @@ import (
 
 	beacon "github.com/oasisprotocol/oasis-core/go/beacon/api"
 	"github.com/oasisprotocol/oasis-core/go/common/cbor"
+	"github.com/oasisprotocol/oasis-core/go/common/crypto/hash"
 	"github.com/oasisprotocol/oasis-core/go/common/crypto/signature"
 	memorySigner "github.com/oasisprotocol/oasis-core/go/common/crypto/signature/signers/memory"
 	"github.com/oasisprotocol/oasis-core/go/common/entity"
@@ -87,15 +89,16 @@ type cnUser struct {
 }
 
 type cnNet struct {
-	cfg      cnCfg
-	doc      *genesis.Document
-	docJSON  []byte
-	chainCtx string
-	vals     []*cnValidator
-	users    []*cnUser
-	scratch  string
-	names    map[string]string // address / key -> short name
+	cfg        cnCfg
+	doc        *genesis.Document
+	docJSON    []byte
+	chainCtx   string
+	vals       []*cnValidator
+	users      []*cnUser
+	scratch    string
+	names      map[string]string                         // address / key -> short name
 	pendingRot map[*cnTxSpec]map[string]signature.Signer // key rotations proposed by not yet executed registrations
+	rhPrev     map[string]hash.Hash                      // runtime -> encoded hash of its latest block (for commitments)
 }
 
 func q(n uint64) quantity.Quantity { return *quantity.NewFromUint64(n) }
@@ -105,10 +108,21 @@ type detRand struct{ r *rand.Rand }
 
 func (d detRand) Read(p []byte) (int, error) { return d.r.Read(p) }
 
+// detFactory generates keys from the scenario's seeded generator whatever source the caller passes (identity.LoadOrGenerate
+// passes crypto/rand): a seed then fixes every key, and with it every address order, election and shuffle of the scenario.
+type detFactory struct {
+	signature.SignerFactory
+	rng *rand.Rand
+}
+
+func (f detFactory) Generate(role signature.SignerRole, _ io.Reader) (signature.Signer, error) {
+	return f.SignerFactory.Generate(role, detRand{f.rng})
+}
+
 func newNet(cfg cnCfg, scratch string) (*cnNet, error) {
 	viper.Set("debug.dont_blame_oasis", true)
 	viper.Set("debug.allow_test_keys", true)
-	n := &cnNet{cfg: cfg, scratch: scratch, names: map[string]string{}, pendingRot: map[*cnTxSpec]map[string]signature.Signer{}}
+	n := &cnNet{cfg: cfg, scratch: scratch, names: map[string]string{}, pendingRot: map[*cnTxSpec]map[string]signature.Signer{}, rhPrev: map[string]hash.Hash{}}
 	rng := rand.New(rand.NewSource(cfg.Seed*7919 + 17))
 	fac := memorySigner.NewFactory()
 	mk := func(role signature.SignerRole) signature.Signer {
@@ -124,12 +138,13 @@ func newNet(cfg cnCfg, scratch string) (*cnNet, error) {
 		if err := os.MkdirAll(dir, 0o700); err != nil {
 			return nil, err
 		}
-		ident, err := identity.LoadOrGenerate(dir, memorySigner.NewFactory())
+		ident, err := identity.LoadOrGenerate(dir, detFactory{memorySigner.NewFactory(), rng})
 		if err != nil {
 			return nil, fmt.Errorf("identity: %w", err)
 		}
 		v := &cnValidator{ident: ident, name: fmt.Sprintf("N%d", i)}
-		v.rot = map[string]signature.Signer{"p2p": ident.P2PSigner, "vrf": ident.VRFSigner, "tls": ident.TLSSigner}
+		// (the TLS key of the identity comes from certificate generation with crypto/rand: registrations use a seeded one)
+		v.rot = map[string]signature.Signer{"p2p": ident.P2PSigner, "vrf": ident.VRFSigner, "tls": mk(signature.SignerNode)}
 		if i < cfg.Validators {
 			v.entSigner = mk(signature.SignerEntity)
 			v.ent = &entity.Entity{Versioned: cbor.NewVersioned(entity.LatestDescriptorVersion), ID: v.entSigner.Public()}
@@ -387,7 +402,7 @@ func (n *cnNet) signNode(v *cnValidator, nd *node.Node, ctx signature.Context) (
 type cnReplicaCfg struct {
 	Backend  string // badger | pathbadger
 	OnDisk   bool
-	Identity int  // index of the validator identity this replica runs with
+	Identity int // index of the validator identity this replica runs with
 	KeepN    uint64
 	Probes   bool
 	Sanity   bool
@@ -395,20 +410,20 @@ type cnReplicaCfg struct {
 }
 
 type cnReplica struct {
-	net     *cnNet
-	cfg     cnReplicaCfg
-	dir     string
-	srv     *abci.ApplicationServer
-	mux     cmtabci.Application
-	staking *stakingApp.Application
-	initVals []string
+	net        *cnNet
+	cfg        cnReplicaCfg
+	dir        string
+	srv        *abci.ApplicationServer
+	mux        cmtabci.Application
+	staking    *stakingApp.Application
+	initVals   []string
 	concurrent bool
-	bgTxs    [][]byte
-	bgCalls  int
-	probes  *cnProbes
-	name    string
-	ctx     context.Context
-	cancel  context.CancelFunc
+	bgTxs      [][]byte
+	bgCalls    int
+	probes     *cnProbes
+	name       string
+	ctx        context.Context
+	cancel     context.CancelFunc
 }
 
 func (n *cnNet) newReplica(name string, cfg cnReplicaCfg) (*cnReplica, error) {
